@@ -174,6 +174,24 @@ def check_r3(fx, rep):
                                        any(isinstance(z, tuple) and z[0] == 'f' and z[2] == suffix for z in y[2])) for x in ts)
         okk = from_site(kt, 'key') and from_site(vt, 'value')
     rep.check(okk, 'R3', 'map-literal/insert-evaluated-key-value', b.loc(), 'map.insert(resolve(key), resolve(value)) per entry', 'map literal does not insert the evaluated key/value of every entry')
+    if len(ins) == 1:
+        # an entry is dropped or rejected only because evaluating it failed or its key has an unsupported kind
+        ib = ins[0][0]
+        keyres = [bi for bi, t in b.calls() if F.norm_callee(t) in RESOLVE_FNS and b.dominates(bi, ib) and
+                  any(isinstance(z, tuple) and z[0] == 'f' and z[2] == 'key' for x in pv.of_operand(t['args'][0]) for z in [x] + list(x[1:2]))]
+        keyres = keyres or [bi for bi, t in b.calls() if F.norm_callee(t) in RESOLVE_FNS and b.dominates(bi, ib) and 'key' in ' '.join(F.term_str(x) for x in pv.of_operand(t['args'][0]))]
+        rejects = []
+        if keyres:
+            exits = b.reachable_from(b.succ(keyres[0]), blocked={ib})
+            for e in sorted(exits):
+                tt = b.blocks[e]['term']
+                if tt['k'] == 'Call' and re.match(r'^cel_interpreter::(ExecutionError::\w+|functions::FunctionContext::error)$', F.norm_callee(tt) or ''):
+                    rejects.append(F.norm_callee(tt).rsplit('::', 1)[-1])
+                for st in b.blocks[e]['stmts']:
+                    if st['k'] == 'Assign' and st['rv']['k'] == 'Aggregate' and st['rv'].get('adt') == 'cel_interpreter::ExecutionError':
+                        rejects.append(st['rv'].get('variant'))
+        rep.check(bool(keyres) and not rejects, 'R3', 'map-literal/no-entry-rejected', b.loc(), 'between evaluating a key and inserting the entry only evaluation errors and UnsupportedKeyType can leave the loop',
+                  'the map literal loop raises %s between evaluating a key and inserting the entry: a literal with pairwise distinct keys (1 and \'1\') no longer holds exactly the entries written' % rejects)
 
 
 def check_concat_size(fx, rep):
